@@ -2,8 +2,10 @@
 `point_to_circle` (non-convex target): direct argument.  For `x` on the circle
 `|p − x|² = |p − c|² + r² − 2⟨dip, x − c⟩` is minimised by the radial projection
 (Cauchy–Schwarz); on the axis every circle point is at the same distance `sqrt(r² + dtp²)`.
-The ε-band `0 < |dip|² < epsilon` is excluded by hypothesis (there the code returns an
-arbitrary circle point, see `pointToCircle_asIs_counterexample` in `Properties/C11`).
+Exact optimality holds outside the band `0 < |dip|² < thr` (`thr = epsilon²` in the current code,
+`epsilon` before /repo commit 0e4a1a6); inside the band the code returns an arbitrary circle
+point and `sqrt(r² + dtp²)`, which is off the true distance by at most `|dip| < sqrt thr`
+(`pointToCircleThr_within`), i.e. by less than `epsilon` in the current code.
 -/
 import D3.Proofs.DistPolyConvex
 
@@ -69,15 +71,15 @@ theorem axis_id (n y : V) (dtp : ℝ) (hnn : V3.dot n n = 1) (hyn : V3.dot y n =
     V3.smul_x, V3.smul_y, V3.smul_z] at *
   linear_combination (dtp * dtp) * hnn - (2 * dtp) * hyn
 
-/-- **`point_to_circle`** for a unit normal, `r ≥ 0`, `epsilon > 0`, outside the ε-band
-`0 < |dip|² < epsilon` and outside pytransform3d's own band `0 < |n.z| < 1e-7` -/
-theorem pointToCircle_spec (p c : V) (r : ℝ) (n : V) (eps : ℝ) (hn : V3.dot n n = 1) (hr : 0 ≤ r)
+/-- **`point_to_circle`** (any positive threshold `eps` on `|dip|²`) for a unit normal, `r ≥ 0`,
+outside the band `0 < |dip|² < eps` and outside pytransform3d's own band `0 < |n.z| < 1e-7` -/
+theorem pointToCircleThr_spec (p c : V) (r : ℝ) (n : V) (eps : ℝ) (hn : V3.dot n n = 1) (hr : 0 ≤ r)
     (heps : 0 < eps)
     (hband : V3.normSq ((p - c) - V3.dot (p - c) n * n) = 0 ∨
       eps ≤ V3.normSq ((p - c) - V3.dot (p - c) n * n))
     (hz : n.z = 0 ∨ (pt3dEps : ℝ) ≤ |n.z|) :
-    ∃ res, pointToCircle p c r n eps = .ok res ∧ GoodPt (circleSet c r n) p res := by
-  unfold pointToCircle
+    ∃ res, pointToCircleThr p c r n eps = .ok res ∧ GoodPt (circleSet c r n) p res := by
+  unfold pointToCircleThr
   dsimp only
   have hdn := dot_reject (p - c) n hn
   have hdec := reject_decomp (p - c) n
@@ -167,6 +169,180 @@ theorem pointToCircle_spec (p c : V) (r : ℝ) (n : V) (eps : ℝ) (hn : V3.dot 
       have : p - x = dtp * n - (x - c) := by
         rw [← hpc]; apply V3.ext' <;> simp
       rw [hsq, this, axis_id n _ dtp hn hx1, hx2]
+      linarith
+
+/-- the current code: threshold `epsilon²` -/
+theorem pointToCircle_spec (p c : V) (r : ℝ) (n : V) (eps : ℝ) (hn : V3.dot n n = 1) (hr : 0 ≤ r)
+    (heps : 0 < eps)
+    (hband : V3.normSq ((p - c) - V3.dot (p - c) n * n) = 0 ∨
+      eps * eps ≤ V3.normSq ((p - c) - V3.dot (p - c) n * n))
+    (hz : n.z = 0 ∨ (pt3dEps : ℝ) ≤ |n.z|) :
+    ∃ res, pointToCircle p c r n eps = .ok res ∧ GoodPt (circleSet c r n) p res :=
+  pointToCircleThr_spec p c r n (eps * eps) hn hr (mul_pos heps heps) hband hz
+
+/-- `perpendicular_to_vector` never fails (the `divZero` arm of the model is unreachable) -/
+theorem perp_ok (n : V) : ∃ v, perpendicularToVector n = .ok v := by
+  unfold perpendicularToVector
+  rw [absS_real]
+  have heps : (0 : ℝ) < pt3dEps := by rw [pt3dEps_real]; norm_num
+  split_ifs with h1 h2
+  · exact ⟨_, rfl⟩
+  · exfalso
+    rw [isZero_real] at h2
+    rw [h2] at h1
+    simp at h1
+    linarith
+  · exact ⟨_, rfl⟩
+
+theorem band_id (dip n y : V) (h : ℝ) (hdn : V3.dot dip n = 0) (hyn : V3.dot y n = 0)
+    (hnn : V3.dot n n = 1) :
+    V3.normSq ((dip + h * n) - y) = V3.dot dip dip - 2 * V3.dot dip y + V3.normSq y + h * h := by
+  simp only [V3.normSq_def, V3.dot_def, V3.sub_x, V3.sub_y, V3.sub_z, V3.add_x, V3.add_y, V3.add_z,
+    V3.smul_x, V3.smul_y, V3.smul_z] at *
+  linear_combination (2 * h) * hdn - (2 * h) * hyn + (h * h) * hnn
+
+/-- scalar core of the bounded error: `d = sqrt(r² + h²)`, a circle point at squared distance
+`D² = ρ² − 2t + r² + h²` with `|t| ≤ ρ r` -/
+theorem band_scalar {r h ρ t d D : ℝ} (_hr : 0 ≤ r) (hρ : 0 ≤ ρ) (hd : 0 ≤ d) (hD : 0 ≤ D)
+    (hd2 : d * d = r * r + h * h) (hD2 : D * D = ρ * ρ - 2 * t + r * r + h * h)
+    (ht1 : t ≤ ρ * r) (ht2 : -(ρ * r) ≤ t) : d ≤ D + ρ ∧ D ≤ d + ρ := by
+  constructor
+  · -- r ≤ D + ρ, then d² ≤ (D + ρ)²
+    have h1 : r - ρ ≤ D := by
+      by_contra hc
+      rw [not_le] at hc
+      have : D * D < (r - ρ) * (r - ρ) := by nlinarith
+      nlinarith
+    have h2 : d * d ≤ (D + ρ) * (D + ρ) := by nlinarith [mul_nonneg hρ hD, mul_nonneg hρ hρ]
+    by_contra hc
+    rw [not_le] at hc
+    nlinarith
+  · -- r ≤ d, then D² ≤ (d + ρ)²
+    have h1 : r ≤ d := by
+      by_contra hc
+      rw [not_le] at hc
+      nlinarith [mul_self_nonneg h]
+    have h2 : D * D ≤ (d + ρ) * (d + ρ) := by nlinarith [mul_nonneg hρ hd, mul_nonneg hρ hρ]
+    by_contra hc
+    rw [not_le] at hc
+    nlinarith
+
+/-- **bounded error, every input** (no band hypothesis).  Unit normal, `r ≥ 0`, `eps > 0`,
+threshold `eps²`: the function succeeds, `d ≥ 0`, and **no point of the circle is closer than
+`d − eps`**; in the general branch even `d ≤ |p − x|`.  The proof also gives
+`| |p − x| − d | ≤ eps` for every circle point `x` whenever the on-axis branch is taken, so the
+returned (arbitrary) circle point is at distance `d ± eps`. -/
+theorem pointToCircle_within (p c : V) (r : ℝ) (n : V) (eps : ℝ) (hn : V3.dot n n = 1) (hr : 0 ≤ r)
+    (heps : 0 < eps) :
+    ∃ res, pointToCircle p c r n eps = .ok res ∧ 0 ≤ res.dist ∧
+      (∀ x, circleSet c r n x → res.dist ≤ V3.norm (p - x) + eps) ∧
+      (res.branch = 1 → ∀ x, circleSet c r n x → V3.norm (p - x) ≤ res.dist + eps) := by
+  by_cases hb : eps * eps ≤ V3.normSq ((p - c) - V3.dot (p - c) n * n)
+  · -- general branch: exact (needs no hypothesis on n.z because `perpendicular_to_vector` is not called)
+    have hmain : ∃ res, pointToCircle p c r n eps = .ok res ∧ res.branch = 0 ∧ 0 ≤ res.dist ∧
+        ∀ x, circleSet c r n x → res.dist * res.dist ≤ V3.normSq (p - x) := by
+      -- re-run the general-branch part of the spec with a harmless normal hypothesis replaced:
+      -- the spec's `hz` is only used in the on-axis branch, so we go through the threshold form
+      unfold pointToCircle pointToCircleThr
+      dsimp only
+      have hdn := dot_reject (p - c) n hn
+      have hdec := reject_decomp (p - c) n
+      rw [V3.normSq] at hb
+      generalize hdtp : V3.dot (p - c) n = dtp at *
+      generalize hdip : (p - c) - dtp * n = dip at *
+      rw [if_pos hb]
+      have hpos : 0 < V3.dot dip dip := lt_of_lt_of_le (mul_pos heps heps) hb
+      have hs : 0 < sqrt (V3.dot dip dip) := Real.sqrt_pos.mpr hpos
+      have hs2 : sqrt (V3.dot dip dip) * sqrt (V3.dot dip dip) = V3.dot dip dip :=
+        Real.mul_self_sqrt hpos.le
+      simp only [isZero_real, if_neg hs.ne']
+      generalize sqrt (V3.dot dip dip) = s at *
+      have hk : r / s * s = r := div_mul_cancel₀ r hs.ne'
+      generalize r / s = k at *
+      obtain ⟨h0, hd⟩ := mkRes_dist 0 p (c + k * dip)
+      refine ⟨_, rfl, rfl, h0, ?_⟩
+      rintro x ⟨hx1, hx2⟩
+      rw [hd]
+      have hp : p - (c + k * dip) = (dip + dtp * n) - k * dip := by
+        have h1 : p - (c + k * dip) = (p - c) - k * dip := by apply V3.ext' <;> simp <;> ring
+        rw [h1]; rw [← hdec]
+      have hpx : p - x = (dip + dtp * n) - (x - c) := by
+        rw [← hdec]; apply V3.ext' <;> simp
+      have hid := circle_id dip n (x - c) dtp k hdn hx1
+      have hcs : V3.dot dip (x - c) ≤ s * r :=
+        dot_le_of_normSq hs.le hr (by rw [V3.normSq]; exact hs2.symm) (le_of_eq hx2)
+      rw [hp, hpx]
+      have e : (2 * k - k * k) * V3.dot dip dip = 2 * (k * s) * s - (k * s) * (k * s) := by
+        rw [← hs2]; ring
+      rw [e, hk, hx2] at hid
+      nlinarith
+    obtain ⟨res, h1, hbr, h0, hopt⟩ := hmain
+    refine ⟨res, h1, h0, ?_, ?_⟩
+    · intro x hx
+      have hN := V3.norm_nonneg (p - x)
+      have hsq := V3.norm_sq (p - x)
+      have := hopt x hx
+      have : res.dist ≤ V3.norm (p - x) := by
+        by_contra hc
+        rw [not_le] at hc
+        nlinarith
+      linarith
+    · intro h; rw [hbr] at h; exact absurd h (by norm_num)
+  · -- treated as on the axis: |dip| < eps
+    rw [not_le] at hb
+    obtain ⟨v, hv⟩ := perp_ok n
+    unfold pointToCircle pointToCircleThr
+    dsimp only
+    have hdn := dot_reject (p - c) n hn
+    have hdec := reject_decomp (p - c) n
+    rw [V3.normSq] at hb
+    generalize hdtp : V3.dot (p - c) n = dtp at *
+    generalize hdip : (p - c) - dtp * n = dip at *
+    rw [if_neg (not_le.mpr hb), hv]
+    simp only [bind, Except.bind]
+    have hrr : 0 ≤ r * r + dtp * dtp := by nlinarith [mul_self_nonneg r, mul_self_nonneg dtp]
+    have hsq : sqrt (r * r + dtp * dtp) * sqrt (r * r + dtp * dtp) = r * r + dtp * dtp :=
+      Real.mul_self_sqrt hrr
+    have hd0 : 0 ≤ sqrt (r * r + dtp * dtp) := Real.sqrt_nonneg _
+    have hρ0 : 0 ≤ sqrt (V3.dot dip dip) := Real.sqrt_nonneg _
+    have hρ2 : sqrt (V3.dot dip dip) * sqrt (V3.dot dip dip) = V3.dot dip dip :=
+      Real.mul_self_sqrt (V3.normSq_nonneg dip)
+    have hρlt : sqrt (V3.dot dip dip) < eps := by
+      by_contra hc
+      rw [not_lt] at hc
+      have := mul_le_mul hc hc heps.le hρ0
+      linarith
+    have key : ∀ x, circleSet c r n x →
+        sqrt (r * r + dtp * dtp) ≤ V3.norm (p - x) + sqrt (V3.dot dip dip) ∧
+        V3.norm (p - x) ≤ sqrt (r * r + dtp * dtp) + sqrt (V3.dot dip dip) := by
+      rintro x ⟨hx1, hx2⟩
+      have hpx : p - x = (dip + dtp * n) - (x - c) := by
+        rw [← hdec]; apply V3.ext' <;> simp
+      have hD2 : V3.norm (p - x) * V3.norm (p - x) =
+          sqrt (V3.dot dip dip) * sqrt (V3.dot dip dip) - 2 * V3.dot dip (x - c) + r * r + dtp * dtp := by
+        rw [V3.norm_sq, hpx, band_id dip n (x - c) dtp hdn hx1 hn, hx2, hρ2]
+      have ht1 : V3.dot dip (x - c) ≤ sqrt (V3.dot dip dip) * r :=
+        dot_le_of_normSq hρ0 hr (by rw [V3.normSq]; exact hρ2.symm) (le_of_eq hx2)
+      have ht2 : -(sqrt (V3.dot dip dip) * r) ≤ V3.dot dip (x - c) := by
+        have hneg : V3.normSq ((-1 : ℝ) * (x - c)) ≤ r * r := by
+          have : V3.normSq ((-1 : ℝ) * (x - c)) = V3.normSq (x - c) := by
+            simp only [V3.normSq_def, V3.smul_x, V3.smul_y, V3.smul_z]; ring
+          rw [this, hx2]
+        have := dot_le_of_normSq (a := dip) (b := (-1 : ℝ) * (x - c)) hρ0 hr
+          (by rw [V3.normSq]; exact hρ2.symm) hneg
+        have e : V3.dot dip ((-1 : ℝ) * (x - c)) = -V3.dot dip (x - c) := by
+          simp only [V3.dot_def, V3.smul_x, V3.smul_y, V3.smul_z]; ring
+        rw [e] at this
+        linarith
+      exact band_scalar hr hρ0 hd0 (V3.norm_nonneg _) hsq hD2 ht1 ht2
+    refine ⟨_, rfl, hd0, ?_, ?_⟩
+    · intro x hx
+      have := (key x hx).1
+      show sqrt (r * r + dtp * dtp) ≤ _
+      linarith
+    · intro _ x hx
+      have := (key x hx).2
+      show _ ≤ sqrt (r * r + dtp * dtp) + eps
       linarith
 
 end DistPoly
